@@ -236,7 +236,7 @@ def known_findings(pid):
     if not f.exists():
         return []
     d = json.loads(f.read_text())
-    return [x for x in d.get('findings', []) if x['property'] == pid and x.get('status', 'open') == 'open']
+    return [x for x in d.get('findings', []) if pid in x.get('properties', [x.get('property')]) and x.get('status', 'open') == 'open']
 
 
 def case_hash(obj):
